@@ -463,6 +463,7 @@ func Families(d *Doc) map[string]int {
 		hasP, hasS             bool
 	}
 	spellings := map[rk]map[string]bool{}
+	zeroSur, zeroPct := map[rk]int{}, map[rk]int{}
 	norm := func(a *Amt) (Amt, bool) {
 		if a == nil {
 			return Amt{}, false
@@ -485,6 +486,22 @@ func Families(d *Doc) map[string]int {
 				spellings[k] = map[string]bool{}
 			}
 			spellings[k][cb.ExtNone] = true
+			if k.hasS && k.sur.V == 0 {
+				zeroSur[k]++
+			}
+			if k.hasP && k.pct.V == 0 {
+				zeroPct[k]++
+			}
+		}
+	}
+	for _, n := range zeroSur {
+		if n > 1 {
+			out["one-rate-with-surcharge-0%-on-several-rows"]++
+		}
+	}
+	for _, n := range zeroPct {
+		if n > 1 {
+			out["one-rate-with-percentage-0%-on-several-rows"]++
 		}
 	}
 	for _, m := range spellings {
